@@ -1,7 +1,8 @@
 // C16 driver: runs the *rendered* Naunet::SetReferenceAbund / Naunet::Renorm (with InitRenorm, the library's linear
 // solve, RenormAbundance and the GetElementAbund / GetHNuclei helpers) on vectors read from stdin.
 // stdin per case:   opt  nref ref[0..nref-1]  ab[0..NEQUATIONS-1]
-// stdout per case:  flag  ab'[0..NEQUATIONS-1]  |  GetElementAbund(ab', e) for e = 0..NELEMENTS-1
+// stdout per case:  flag  ab'[0..NEQUATIONS-1]  |  GetElementAbund(ab', e) for e = 0..NELEMENTS-1  ||  flag2  ab''[..]
+//                   (ab'' = a perturbed copy of ab' renormalised again by the same object)
 #include <stdio.h>
 #include <stdlib.h>
 #include <vector>
@@ -22,11 +23,20 @@ int main() {
         flag = n.SetReferenceAbund(ref.data(), opt);
         if (flag == NAUNET_SUCCESS) flag = n.Renorm(ab);
 #endif
-        n.Finalize();
         printf("%d", flag);
         for (int i = 0; i < NEQUATIONS; i++) printf(" %.17g", ab[i]);
         printf(" |");
         for (int e = 0; e < NELEMENTS; e++) printf(" %.17g", GetElementAbund(ab, e));
+        // a second renormalisation with the same object and the same stored reference: the abundances are perturbed first
+        double ab2[NEQUATIONS];
+        for (int i = 0; i < NEQUATIONS; i++) ab2[i] = ab[i] * (i % 2 ? 3.0 : 0.5);
+        int flag2 = 0;
+#ifdef IDX_ELEM_H
+        flag2 = n.Renorm(ab2);
+#endif
+        n.Finalize();
+        printf(" || %d", flag2);
+        for (int i = 0; i < NEQUATIONS; i++) printf(" %.17g", ab2[i]);
         printf("\n");
     }
     return 0;
